@@ -101,4 +101,31 @@ theorem returns_after_drain (s : S) (hc : s.cancelled = true) (hp : s.pc = 0) (h
 example : (run (init 2) [.cancel, .watcher, .watcher, .watcher, .h1Done, .other, .cancel, .h1Done, .watcher, .watcher]).lnClosed = true := by
   decide
 
+/-! ### a connection attempted after cancellation (finding D20)
+
+`crypto/tls.Conn.HandshakeContext` interrupts a handshake from a helper goroutine; on a context that is ALREADY cancelled
+when the handshake starts, that goroutine races with the handshake itself, and the handshake can win (observed: 1 in 3000
+under load). The listener stays open while an HTTP/1.1 exchange drains, so such a connection can be accepted. The repaired
+`tlsHandshakeWithTimeout` looks at the context first. -/
+
+/-- Obligation on the REGENERATED first statement of tlsHandshakeWithTimeout: nothing is started on a cancelled context -/
+theorem handshake_guard : Gen.Lifecycle.handshakeWithTimeout.head? = some "iferr:=server.ctx.Err();err!=nil{returnerr}" := by rfl
+
+inductive Attempt | refused | served
+  deriving Repr, DecidableEq
+
+/-- what can become of a connection whose handshake begins when the context is (not) cancelled: with the guard a cancelled
+context refuses it; `tlsWins` is the scheduling choice crypto/tls leaves open when there is no guard -/
+def attempt (guard cancelledAtStart tlsWins : Bool) : Attempt :=
+  if guard && cancelledAtStart then .refused
+  else if cancelledAtStart && !tlsWins then .refused
+  else .served
+
+/-- NO CONNECTION ATTEMPTED AFTER CANCELLATION IS SERVED, whatever the scheduler does -/
+theorem attempt_after_cancel_refused (tlsWins : Bool) : attempt true true tlsWins = .refused := by
+  cases tlsWins <;> rfl
+
+/-- without the guard there is a schedule on which it is served (the defect that was repaired) -/
+theorem unguarded_served_witness : attempt false true true = .served := rfl
+
 end Fp.C17
